@@ -315,3 +315,126 @@ theorem decOfLex_wf (t : List Char) (h : XSD.decimalLex t = true) : WFDec (Lex.d
     exact ⟨ha, hf, hne⟩
 
 end EPV.LexLemmas
+
+namespace EPV.LexLemmas
+open EPV
+
+/-! ### the canonical string is syntactically canonical (XSD 1.1 §3.3.3.2) -/
+
+theorem canonI_shape (d : Lex.PyDec) : canonI d = ['0'] ∨ (∃ c r, canonI d = c :: r ∧ c ≠ '0') := by
+  unfold canonI
+  split
+  · exact Or.inl rfl
+  · rename_i hne
+    right
+    cases hs : Lex.stripLead0 d.ip with
+    | nil => rw [hs] at hne; simp at hne
+    | cons c r =>
+      refine ⟨c, r, rfl, ?_⟩
+      have := List.head_dropWhile_not (· == '0') (l := d.ip) (by
+        unfold Lex.stripLead0 at hs; rw [hs]; simp)
+      unfold Lex.stripLead0 at hs
+      simp only [hs, List.head_cons] at this
+      simpa using this
+
+theorem canonF_last (d : Lex.PyDec) : (canonF d).getLast? ≠ some '0' := by
+  unfold canonF Lex.stripTrail0
+  rw [List.getLast?_reverse]
+  intro h
+  have := head?_dropWhile_false' _ _ _ h
+  simp at this
+where
+  head?_dropWhile_false' (p : Char → Bool) (l : List Char) (c : Char)
+      (h : (l.dropWhile p).head? = some c) : p c = false := by
+    cases hl : l.dropWhile p with
+    | nil => rw [hl] at h; cases h
+    | cons a t =>
+      rw [hl] at h
+      simp only [List.head?_cons, Option.some.injEq] at h
+      subst h
+      have := List.head_dropWhile_not p (l := l) (by rw [hl]; simp)
+      simp only [hl, List.head_cons] at this
+      simpa using this
+
+theorem intOk_canonI (d : Lex.PyDec) (h : WFDec d) : XSD.canonIntPart (canonI d) = true := by
+  obtain ⟨hne, hi⟩ := canonI_digits d h
+  unfold XSD.canonIntPart
+  rw [unsignedNoDecimalPt_of _ hne hi]
+  rcases canonI_shape d with h0 | ⟨c, r, hc, hc0⟩
+  · rw [h0]; rfl
+  · rw [hc]
+    have : (some c != some '0') = true := by simpa using hc0
+    simp [this]
+
+theorem canonUnsigned_body (d : Lex.PyDec) (h : WFDec d) : XSD.canonUnsigned (canonBody d) = true := by
+  obtain ⟨_, hI⟩ := canonI_digits d h
+  have hF := canonF_digits d h
+  have hIok := intOk_canonI d h
+  unfold XSD.canonUnsigned
+  by_cases hfe : (canonF d).isEmpty = true
+  · have hb : canonBody d = canonI d := by simp [canonBody, hfe]
+    rw [hb, splitAt_none _ _ (digits_no_dot _ hI)]
+    exact hIok
+  · have hb : canonBody d = canonI d ++ '.' :: canonF d := by simp [canonBody, hfe]
+    rw [hb, splitAt_some _ _ '.' _ (digits_no_dot _ hI) (by decide)]
+    have hfne : canonF d ≠ [] := by simpa using hfe
+    have hff : XSD.fracFrag (canonF d) = true := by
+      unfold XSD.fracFrag
+      rw [(allDigits_iff _).mpr hF]
+      cases hc : canonF d with
+      | nil => exact absurd hc hfne
+      | cons _ _ => rfl
+    have hl : ((canonF d).getLast? != some '0') = true := by
+      have := canonF_last d
+      simpa using this
+    simp [hIok, hff, hl]
+
+/-- `string_value(Decimal)` produces a literal in XSD canonical form: no '+', no leading zero but a
+single one before the point, no trailing fractional zero, no point for integers, "0" for zero -/
+theorem decCanon_isCanonical (d : Lex.PyDec) (h : WFDec d) :
+    XSD.isCanonicalDecimal (Lex.decCanon d) = true := by
+  obtain ⟨_, hI⟩ := canonI_digits d h
+  have hF := canonF_digits d h
+  have hbodyOk := canonUnsigned_body d h
+  obtain ⟨c, r, hb, hcd⟩ := canonBody_head_digit d h
+  have hcm : c ≠ '-' := (digit_ne_sign c hcd).2.1
+  rw [decCanon_eq]
+  unfold XSD.isCanonicalDecimal
+  split
+  · rename_i hneg
+    -- '-' :: body with body ≠ "0": a non-zero digit occurs
+    have hnz : (canonBody d).any (fun c => XSD.isDigit c && c != '0') = true := by
+      simp only [Bool.and_eq_true, Bool.not_eq_true'] at hneg
+      have hb0 : canonBody d ≠ ['0'] := by simpa using hneg.2
+      rw [List.any_eq_true]
+      rcases canonI_shape d with h0 | ⟨c', r', hc', hc0⟩
+      · have hfne : canonF d ≠ [] := by
+          intro hfe
+          apply hb0
+          unfold canonBody; simp [hfe, h0]
+        cases hg : (canonF d).getLast? with
+        | none => simp at hg; exact absurd hg hfne
+        | some y =>
+          have hy : y ∈ canonF d := List.mem_of_getLast? hg
+          refine ⟨y, ?_, ?_⟩
+          · unfold canonBody; simp [hfne, hy]
+          · have hy0 : y ≠ '0' := by intro e; subst e; exact canonF_last d hg
+            rw [← isDigit_eq, hF y hy]; simpa using hy0
+      · refine ⟨c', ?_, ?_⟩
+        · unfold canonBody; split <;> simp [hc']
+        · rw [← isDigit_eq, hI c' (by rw [hc']; simp)]; simpa using hc0
+    simp only [XSD.minusOk, XSD.stripMinus, hnz, Bool.true_and]
+    exact hbodyOk
+  · have h1 : XSD.stripMinus (canonBody d) = canonBody d := by
+      rw [hb]; unfold XSD.stripMinus
+      split
+      · rename_i heq; cases heq; exact absurd rfl hcm
+      · rfl
+    have h2 : XSD.minusOk (canonBody d) = true := by
+      rw [hb]; unfold XSD.minusOk
+      split
+      · rename_i heq; cases heq; exact absurd rfl hcm
+      · rfl
+    rw [h1, h2, hbodyOk]; rfl
+
+end EPV.LexLemmas
